@@ -719,37 +719,165 @@ Proof.
              | None => None end) nv); [reflexivity|].
   apply mapM_ext_in. intros [[[pat op] var] v] _. now rewrite H.
 Qed.
-Lemma observe_equiv d r h t nv : abs d h r = Some t -> observe d r h nv = tobserve d t nv.
+Lemma observe_equiv d r h t nv ev : abs d h r = Some t -> observe d r h nv ev = tobserve d t nv ev.
 Proof.
   intros H. unfold observe, tobserve. rewrite (nodes_of_equiv d r h t H), (collect_edges_equiv d h r t H).
   rewrite (overrides_ext (get_nodes d h r) (tget_nodes t) nv) by (intros; now apply get_nodes_equiv).
   destruct (tnodes_of d t); [|reflexivity]. destruct (overrides (tget_nodes t) nv); reflexivity.
 Qed.
 
-(* ------------------------------------------------------------------ histories *)
-Lemma step_refines d r h t o : abs d h r = Some t ->
-  abs d (fst (stepI d r h o)) r = Some (fst (stepS d t o)) /\ snd (stepI d r h o) = snd (stepS d t o).
+(* ------------------------------------------------------------------ update_template *)
+Lemma lift_dset {A B} (f : A -> option B) k x y : forall l s, mapM (lift f) l = Some s -> f x = Some y ->
+  mapM (lift f) (dset k x l) = Some (dset k y s).
 Proof.
-  intros H. destruct o as [pat op var v|s tg upd|nv]; cbn.
+  induction l as [|[k' x'] l IH]; intros s M Hx.
+  - injection M as <-. cbn. unfold lift. cbn. now rewrite Hx.
+  - apply mapM_cons_inv in M as (y' & r' & Hy' & Hr & ->). unfold lift in Hy'. cbn in Hy'.
+    destruct (f x') eqn:E; [|discriminate]. injection Hy' as <-. cbn. destruct (String.eqb k k').
+    + cbn. unfold lift at 1. cbn. rewrite Hx. now rewrite Hr.
+    + cbn. unfold lift at 1. cbn. rewrite E. now rewrite (IH _ Hr Hx).
+Qed.
+Lemma lift_dupdate {A B} (f : A -> option B) news anews :
+  Forall2 (fun (a : string * A) (b : string * B) => fst a = fst b /\ f (snd a) = Some (snd b)) news anews ->
+  forall l s, mapM (lift f) l = Some s -> mapM (lift f) (dupdate l news) = Some (dupdate s anews).
+Proof.
+  intros HF. unfold dupdate. induction HF as [|[k x] [k2 y] news anews (Hk & Hx) HF IH]; intros l s M; [assumption|].
+  cbn in *. subst k2. apply IH. now apply lift_dset.
+Qed.
+Lemma resolve_adds_equiv d h r t adds : abs d h r = Some t ->
+  match resolve_adds d h r adds with
+  | Some news => exists anews, tresolve_adds t adds = Some anews /\
+                   Forall2 (fun (a : string * id) (b : string * anode) => fst a = fst b /\ node_den h (snd a) = Some (snd b)) news anews
+  | None => tresolve_adds t adds = None
+  end.
+Proof.
+  intros H. unfold resolve_adds, tresolve_adds. induction adds as [|[k p] adds IH]; cbn.
+  - exists []. split; [reflexivity|constructor].
+  - pose proof (get_node_template_equiv d h r t p H) as G. destruct (get_node_template d h r p) as [nid|].
+    + destruct G as (a & Ha & ->). destruct (mapM _ adds) as [news|].
+      * destruct IH as (anews & -> & HF). exists ((k, a) :: anews). split; [reflexivity|]. constructor; [split; [reflexivity|assumption]|assumption].
+      * now rewrite IH.
+    + now rewrite G.
+Qed.
+Lemma leaf_new h ch' e' ns' : mapM (lift (node_den h)) ch' = Some ns' ->
+  abs 0 (h ++ [OCirc ch' e']) (List.length h) = Some (ALeaf ns' e').
+Proof.
+  intros M. cbn. rewrite lookup_alloc_new.
+  replace (mapM (lift (node_den (h ++ [OCirc ch' e']))) ch') with (Some ns'); [reflexivity|].
+  rewrite <- M. apply mapM_ext_in. intros [k z] Hz. destruct (mapM_Some_in _ _ _ _ M Hz) as (w & Hw & _).
+  unfold lift in *. cbn in *. destruct (node_den h z) eqn:N; [|discriminate].
+  erewrite node_den_stable; eauto. intros. eapply extends_lookup; eauto. apply extends_app.
+Qed.
+Lemma leaf_inpl h r ch0 e0 ch' e' ns' : lookup h r = Some (OCirc ch0 e0) -> mapM (lift (node_den h)) ch' = Some ns' ->
+  abs 0 (hset h r (OCirc ch' e')) r = Some (ALeaf ns' e').
+Proof.
+  intros E M. pose proof (lookup_lt _ _ _ E) as Hlt. cbn. rewrite hset_same by assumption.
+  replace (mapM (lift (node_den (hset h r (OCirc ch' e')))) ch') with (Some ns'); [reflexivity|].
+  rewrite <- M. apply mapM_ext_in. intros [k z] Hz. destruct (mapM_Some_in _ _ _ _ M Hz) as (w & Hw & _).
+  unfold lift in *. cbn in *. destruct (node_den h z) eqn:N; [|discriminate].
+  erewrite node_den_stable; eauto. intros i ob Hi Hc. rewrite hset_other; [assumption|].
+  intros <-. rewrite E in Hi. injection Hi as <-. discriminate.
+Qed.
+Lemma inner_new d h ch e' ss : mapM (lift (abs d h)) ch = Some ss ->
+  abs (S d) (h ++ [OCirc ch e']) (List.length h) = Some (AInner ss e').
+Proof.
+  intros M. cbn. rewrite lookup_alloc_new.
+  replace (mapM (lift (abs d (h ++ [OCirc ch e']))) ch) with (Some ss); [reflexivity|].
+  rewrite <- M. apply mapM_ext_in. intros [k z] Hz. destruct (mapM_Some_in _ _ _ _ M Hz) as (w & Hw & _).
+  unfold lift in *. cbn in *. destruct (abs d h z) eqn:N; [|discriminate].
+  erewrite abs_extends; eauto. apply extends_app.
+Qed.
+Lemma inner_inpl d h r ch e0 e' ss : abs (S d) h r = Some (AInner ss e0) -> lookup h r = Some (OCirc ch e0) ->
+  abs (S d) (hset h r (OCirc ch e')) r = Some (AInner ss e').
+Proof.
+  intros H E. pose proof (acyclic _ _ _ _ H) as Hacyc. unfold below in Hacyc. rewrite E in Hacyc.
+  cbn in H. rewrite E in H. destruct (mapM (lift (abs d h)) ch) as [ss0|] eqn:M; [|discriminate]. injection H as <-.
+  pose proof (lookup_lt _ _ _ E) as Hlt. cbn. rewrite hset_same by assumption.
+  replace (mapM (lift (abs d (hset h r (OCirc ch e')))) ch) with (Some ss0); [reflexivity|].
+  rewrite <- M. apply mapM_ext_in. intros [k z] Hz. destruct (mapM_Some_in _ _ _ _ M Hz) as (w & Hw & _).
+  unfold lift in *. cbn in *. destruct (abs d h z) eqn:N; [|discriminate].
+  erewrite abs_stable; [reflexivity|exact N|]. intros i ob Hi Hc. rewrite hset_other; [assumption|]. intros <-.
+  rewrite E in Hi. injection Hi as <-. exfalso. apply Hacyc.
+  apply in_flat_map. exists (k, z). split; [assumption|]. cbn. now apply Hc.
+Qed.
+
+Lemma update_template_equiv d r h t inpl adds es : abs d h r = Some t ->
+  match update_template d r h inpl adds es with
+  | Some (h', r') => exists t', tupdate_template t adds es = Some t' /\ abs d h' r' = Some t'
+  | None => tupdate_template t adds es = None
+  end.
+Proof.
+  intros H. unfold update_template, tupdate_template.
+  destruct (abs_root _ _ _ _ H) as (ch & es0 & E). rewrite E.
+  pose proof (resolve_adds_equiv d h r t adds H) as R. destruct (resolve_adds d h r adds) as [news|] eqn:ER; [|now rewrite R].
+  destruct R as (anews & -> & HF).
+  destruct d as [|d].
+  - pose proof H as H0. cbn in H. rewrite E in H. destruct (mapM (lift (node_den h)) ch) as [ns|] eqn:M; [|discriminate]. injection H as <-.
+    destruct adds as [|ad adds]; cbn [is_nil].
+    + cbn in ER. injection ER as <-. inversion HF; subst. cbn [dupdate fold_left]. destruct inpl; eexists; (split; [reflexivity|]).
+      * eapply leaf_inpl; eauto.
+      * now apply leaf_new.
+    + assert (Hi : minv h h []).
+      { split; [apply extends_refl|]. split; [|intros ? ? [=]]. intros j c0 e0 Hj Hl. apply lookup_lt in Hl. lia. }
+      assert (HD : forall x, In x ch -> exists a, node_den h (snd x) = Some a).
+      { intros x Hx. destruct (mapM_Some_in _ _ _ _ M Hx) as (y & Hy & _). unfold lift in Hy. destruct (node_den h (snd x)); [eauto|discriminate]. }
+      destruct (copy_children_spec h _ _ (copy_node_m_good h) ch h [] Hi HD) as (h1 & m1 & ch1 & -> & _ & He & HC).
+      assert (M1 : mapM (lift (node_den h1)) ch1 = Some ns).
+      { eapply lift_transfer; [|exact M]. eapply Forall2_imp; [|exact HC]. intros x x' (Hn & _ & Hs). split; [assumption|].
+        intros y Hy. now apply Hs. }
+      assert (HF1 : Forall2 (fun (a : string * id) (b : string * anode) => fst a = fst b /\ node_den h1 (snd a) = Some (snd b)) news anews).
+      { eapply Forall2_imp; [|exact HF]. intros a b (Hk & Hn). split; [assumption|]. eapply node_den_stable; eauto.
+        intros. eapply extends_lookup; eauto. }
+      pose proof (lift_dupdate (node_den h1) news anews HF1 ch1 ns M1) as M2.
+      destruct inpl; eexists; (split; [reflexivity|]).
+      * eapply leaf_inpl; eauto. eapply extends_lookup; eauto.
+      * now apply leaf_new.
+  - pose proof H as H0. cbn in H. rewrite E in H. destruct (mapM (lift (abs d h)) ch) as [ss|] eqn:M; [|discriminate]. injection H as <-.
+    destruct adds as [|ad adds]; cbn [is_nil]; [|reflexivity].
+    destruct inpl; eexists; (split; [reflexivity|]).
+    + eapply inner_inpl; eauto.
+    + now apply inner_new.
+Qed.
+
+(* ------------------------------------------------------------------ histories *)
+Definition heap_of (st : istate) : heap := fst (fst st).
+Definition root_of (st : istate) : id := snd (fst st).
+Definition stale_of (st : istate) : option (list (string * string)) := snd st.
+
+Lemma step_refines d st t o : abs d (heap_of st) (root_of st) = Some t -> stale_of st = None -> inplace_edges o = false ->
+  abs d (heap_of (fst (stepI d st o))) (root_of (fst (stepI d st o))) = Some (fst (stepS d t o)) /\
+  stale_of (fst (stepI d st o)) = None /\ snd (stepI d st o) = snd (stepS d t o).
+Proof.
+  destruct st as [[h r] stale]. unfold heap_of, root_of, stale_of. cbn [fst snd]. intros H -> G.
+  destruct o as [pat op var v|s tg upd|inpl adds es|nv ev]; cbn [stepI stepS].
   - pose proof (update_var_equiv d r h t pat op var v H) as U. destruct (update_var d r h pat op var v).
     + destruct U as (t' & -> & ?). cbn. auto.
     + rewrite U. cbn. auto.
   - pose proof (update_edge_equiv d r h t s tg upd H) as U. destruct (update_edge r h s tg upd).
     + destruct U as (t' & -> & ?). cbn. auto.
     + rewrite U. cbn. auto.
-  - split; [assumption|]. now apply observe_equiv.
+  - pose proof (update_template_equiv d r h t inpl adds es H) as U. destruct (update_template d r h inpl adds es) as [[h' r']|].
+    + destruct U as (t' & -> & ?). cbn. repeat split; try assumption.
+      destruct inpl; [|reflexivity]. destruct es; [reflexivity|discriminate].
+    + rewrite U. cbn. auto.
+  - cbn. repeat split; try assumption. now apply observe_equiv.
 Qed.
-Theorem history_refines d r : forall ops h t, abs d h r = Some t ->
-  abs d (fst (runI d r h ops)) r = Some (fst (runS d t ops)) /\ snd (runI d r h ops) = snd (runS d t ops).
+Theorem history_refines d : forall ops st t, abs d (heap_of st) (root_of st) = Some t -> stale_of st = None ->
+  no_inplace_edge_template ops = true ->
+  abs d (heap_of (fst (runI d st ops))) (root_of (fst (runI d st ops))) = Some (fst (runS d t ops)) /\
+  snd (runI d st ops) = snd (runS d t ops).
 Proof.
-  induction ops as [|o ops IH]; intros h t H; cbn; [auto|].
-  destruct (step_refines d r h t o H) as (Ha & Ho).
-  destruct (stepI d r h o) as [h1 out]. destruct (stepS d t o) as [t1 out']. cbn in *. subst out'.
-  destruct (IH h1 t1 Ha) as (Hb & Hc). destruct (runI d r h1 ops) as [h2 outs]. destruct (runS d t1 ops) as [t2 outs'].
+  induction ops as [|o ops IH]; intros st t H Hs G; cbn; [auto|].
+  unfold no_inplace_edge_template in G. cbn in G. apply negb_true_iff in G. apply orb_false_iff in G as [G1 G2].
+  destruct (step_refines d st t o H Hs G1) as (Ha & Hst & Ho).
+  destruct (stepI d st o) as [s1 out]. destruct (stepS d t o) as [t1 out']. cbn in *. subst out'.
+  assert (G2' : no_inplace_edge_template ops = true) by (unfold no_inplace_edge_template; now rewrite G2).
+  destruct (IH s1 t1 Ha Hst G2') as (Hb & Hc). destruct (runI d s1 ops) as [s2 outs]. destruct (runS d t1 ops) as [t2 outs'].
   cbn in *. subst. auto.
 Qed.
-Corollary history_outputs d r ops h t : abs d h r = Some t -> snd (runI d r h ops) = snd (runS d t ops).
-Proof. intros H. apply (history_refines d r ops h t H). Qed.
+Corollary history_outputs d r ops h t : abs d h r = Some t -> no_inplace_edge_template ops = true ->
+  snd (runI d (init_state h r) ops) = snd (runS d t ops).
+Proof. intros H G. apply (history_refines d ops (init_state h r) t H eq_refl G). Qed.
 
 (* ------------------------------------------------------------------ the frame property of the specification:
    a functional update at path n changes the node at n and no other (first-match dictionaries).
@@ -791,5 +919,10 @@ Qed.
 Definition probe (k : okey) (outs : list hout) : Z :=
   match last outs ODone with
   | OObs ns _ => match ol_get ns k with Some (Sc q) => Qnum (this q) | _ => 0%Z end
+  | _ => 0%Z
+  end.
+Definition probe_w (s t : string) (outs : list hout) : Z :=
+  match last outs ODone with
+  | OObs _ es => Qnum (this (edge_sum es s t))
   | _ => 0%Z
   end.
